@@ -163,6 +163,38 @@ def enum_shapes(tier, seed):
     return [{"model": m} for m in shapes.all_specs(6 if tier == "thorough" else 5)]
 
 
+def enum_rounding(tier, seed):
+    """Trees with k non-leaf features and c children where c/k lies within 0.0002 of a x.xx5 rounding boundary
+    (the claim is 'rounded to two decimals'; intermediate roundings only show there)."""
+    limit = 400 if tier == "thorough" else 150
+    out = []
+    for k in range(1, limit):
+        for c in range(k, min(limit, 12 * k)):
+            r = c / k * 100
+            frac = r - int(r)
+            if abs(frac - 0.5) <= 0.02 and frac != 0.5:
+                out.append({"model": _caterpillar(k, c)})
+    if tier != "thorough":
+        out = out[int(seed) % 3::3]
+    return out
+
+
+def _caterpillar(k, c):
+    """k internal features in a chain, c children in total (extra leaves hang off the internal ones in turn)."""
+    inner = [build.feat(f"I{i}") for i in range(k)]
+    for i in range(k - 1):
+        inner[i]["rels"].append(build.rel(1, 1, [inner[i + 1]]))
+    used = k - 1
+    inner[-1]["rels"].append(build.rel(0, 1, [build.feat("L0")]))
+    used += 1
+    j = 0
+    while used < c:
+        inner[j % k]["rels"].append(build.rel(0, 1, [build.feat(f"L{used}")]))
+        used += 1
+        j += 1
+    return {"root": inner[0], "ctcs": []}
+
+
 def enum_corpus(tier, seed):
     files = fama.corpus_files(None if tier == "thorough" else 200)
     # big files first so that shards are balanced
@@ -202,6 +234,8 @@ SUBS = [
     Sub("shapes", check, enum=enum_shapes, nontrivial=nontrivial, classes=classes, exhaustive=True, min_nontrivial=0.0),
     Sub("random-trees", check, gen=lambda tier: big_trees(200 if tier == "thorough" else 60), nontrivial=nontrivial,
         classes=classes, n={"quick": 200, "thorough": 1500}, essential=["size:>50", "root-only"] , min_nontrivial=0.005),
+    Sub("rounding-boundaries", check, enum=enum_rounding, nontrivial=lambda case: True,
+        classes=lambda case: {"rounding-boundary"}, exhaustive=False),
     Sub("corpus", check, enum=enum_corpus, nontrivial=nontrivial, classes=classes,
         exhaustive={"quick": False, "thorough": True}),
 ]
